@@ -108,13 +108,33 @@ func (env *nodeEnv) useOutsiderKey() {
 
 var nodeDirSeq int
 
+// Nodes are not closed at once: goroutines of the implementation (the casper
+// cached-verification loop) may still touch the store for a moment after the last call
+// returned. A closed node is parked and its database is closed (and its directory removed)
+// only when 40 younger nodes have been parked after it, or at the end of the run.
+var parkedNodes []*node
+
 func (n *node) close() {
 	if n == nil {
 		return
 	}
-	// let the cached-verification goroutine drain before the store goes away
 	n.quiesce()
-	time.Sleep(3 * time.Millisecond)
+	parkedNodes = append(parkedNodes, n)
+	for len(parkedNodes) > 40 {
+		parkedNodes[0].reallyClose()
+		parkedNodes = parkedNodes[1:]
+	}
+}
+
+func closeParkedNodes() {
+	time.Sleep(20 * time.Millisecond)
+	for _, n := range parkedNodes {
+		n.reallyClose()
+	}
+	parkedNodes = nil
+}
+
+func (n *node) reallyClose() {
 	if n.db != nil {
 		n.db.Close()
 	}
